@@ -140,13 +140,15 @@ void Exec::op_owncheck() {
 // ---------------------------------------------------------------- heap walk (C12)
 struct VisitRec { uintptr_t b; size_t s; };
 struct VisitAreaRec { uintptr_t blocks; size_t reserved, used, bsize, fbsize; size_t seen = 0; };
-struct VisitCtx { std::vector<VisitRec> blocks; std::vector<VisitAreaRec> areas; long stop = -1; long calls = 0; const mi_heap_t* heap = nullptr; bool wrong_heap_arg = false; };
+struct VisitCtx { std::vector<VisitRec> blocks; std::vector<VisitAreaRec> areas; long stop = -1; long calls = 0; const mi_heap_t* heap = nullptr; bool wrong_heap_arg = false; long stop_area = -1; long area_calls = 0; bool said_stop = false; long calls_after_stop = 0; };
 static bool visit_cb(const mi_heap_t* heap, const mi_heap_area_t* area, void* block, size_t bsize, void* arg) {
   VisitCtx* c = (VisitCtx*)arg;
+  if (c->said_stop) { c->calls_after_stop++; return false; }
+  if (block == nullptr && c->stop_area > 0 && ++c->area_calls >= c->stop_area) { c->said_stop = true; return false; }   // stop on an area call (the area is not recorded)
   if (block == nullptr) { VisitAreaRec a; a.blocks = (uintptr_t)area->blocks; a.reserved = area->reserved; a.used = area->used; a.bsize = area->block_size; a.fbsize = area->full_block_size; c->areas.push_back(a); return true; }
   if (c->heap && heap != c->heap) c->wrong_heap_arg = true;
   c->calls++; c->blocks.push_back({ (uintptr_t)block, bsize });
-  if (c->stop > 0 && c->calls >= c->stop) return false;
+  if (c->stop > 0 && c->calls >= c->stop) { c->said_stop = true; return false; }
   return true;
 }
 
@@ -154,10 +156,13 @@ void Exec::op_visit(const Op& op) {
   if (walk_unreliable) { count(C_EXCLUDED); return; }
   int h = (int)op.num("h", 1); if (h < 1 || h >= NHEAPS || !m.heaps[h].alive) return; Hp& H = m.heaps[h];
   if (H.pending_remote) { mi_heap_collect(H.h, false); H.pending_remote = false; }
-  VisitCtx c; c.stop = (long)op.snum("stop", -1); c.heap = H.h;
+  VisitCtx c; c.stop = (long)op.snum("stop", -1); c.heap = H.h; c.stop_area = (long)op.snum("stoparea", -1);
   bool ret = mi_heap_visit_blocks(H.h, true, &visit_cb, &c);
   flag(F_VISIT); count(C_VISITED_BLOCKS, c.blocks.size());
-  bool stopped = (c.stop > 0 && c.calls >= c.stop);
+  bool stopped = c.said_stop;
+  if (c.calls_after_stop > 0) fail_now("visit-stop", "op#%ld the visitor returned false but was called %ld more time(s)", opi, c.calls_after_stop);
+  if (stopped && ret) fail_now("visit-stop-ret", "op#%ld mi_heap_visit_blocks returned true although the visitor returned false", opi);
+  if (stopped) flag(F_VISIT_STOP);
   if (c.stop > 0) {
     if (c.calls > c.stop) fail_now("visit-stop", "op#%ld visitor returned false at block call %ld but %ld calls were made", opi, c.stop, c.calls);
     if (stopped && ret) fail_now("visit-stop-ret", "op#%ld mi_heap_visit_blocks returned true although the visitor returned false", opi);
@@ -208,7 +213,9 @@ void Exec::op_census(const Op& op) {
     VisitCtx c; c.heap = H.h; mi_heap_visit_blocks(H.h, true, &visit_cb, &c); for (auto& v : c.blocks) { all.push_back(v); from.push_back(h); } }
   bool with_abandoned = visit_abandoned_on;
   if (with_abandoned && op.has("astop")) {   // an abandoned walk that the visitor stops early: it stops there, reports false, and takes nothing away from the walk that follows
-    VisitCtx cs; cs.stop = (long)op.snum("astop", 1); bool ret = mi_abandoned_visit_blocks(mi_subproc_main(), -1, true, &visit_cb, &cs); bool stopped = (cs.stop > 0 && cs.calls >= cs.stop);
+    VisitCtx cs; cs.stop = (long)op.snum("astop", 1); if (op.has("astoparea")) { cs.stop = -1; cs.stop_area = (long)op.snum("astoparea", 1); }
+    bool ret = mi_abandoned_visit_blocks(mi_subproc_main(), -1, true, &visit_cb, &cs); bool stopped = cs.said_stop;
+    if (cs.calls_after_stop > 0) fail_now("avisit-stop", "op#%ld the visitor of the abandoned walk returned false but was called %ld more time(s)", opi, cs.calls_after_stop);
     if (cs.stop > 0 && cs.calls > cs.stop) fail_now("avisit-stop", "op#%ld visitor returned false at block call %ld of the abandoned walk but %ld calls were made", opi, cs.stop, cs.calls);
     if (stopped && ret) fail_now("avisit-stop-ret", "op#%ld mi_abandoned_visit_blocks returned true although the visitor returned false", opi);
     if (stopped) flag(F_VISIT_STOP); }
